@@ -121,6 +121,11 @@ func (h *Hub) ServeHTTP(w http.ResponseWriter, r *http.Request) {
 
 	remoteService = service
 
+	// the double connection check and the registration have to be one step,
+	// otherwise an incoming and an outgoing connection can both pass the check
+	h.muxConKeep.Lock()
+	defer h.muxConKeep.Unlock()
+
 	// don't allow a second connection
 	if !h.keepThisConnection(conn, true, remoteService) {
 		_ = conn.Close()
@@ -205,6 +210,10 @@ func (h *Hub) connectFoundService(remoteService *api.ServiceDetails, host, port,
 		_ = conn.Close()
 		return errors.New(errorString)
 	}
+
+	// the double connection check and the registration have to be one step
+	h.muxConKeep.Lock()
+	defer h.muxConKeep.Unlock()
 
 	if !h.keepThisConnection(conn, false, remoteService) {
 		errorString := fmt.Sprintf("closing connection to %s: ignoring this connection", remoteService.SKI())
